@@ -264,12 +264,32 @@ func gvcCLI(t *testing.T, dir string, args ...string) string {
 	c.Dir = dir
 	c.Stdin = strings.NewReader("")
 	out, _ := c.CombinedOutput()
+	gvcExitCode = c.ProcessState.ExitCode()
 	return string(out)
 }
+
+var gvcExitCode int
 `
 
 func init() {
 	clauseScenarios = append(clauseScenarios,
+		clauseScenario{"v3.(*Executor).RunTask$1", "depsExit", scenario{pkgRel: "", what: "a failing command in a dependency makes the invocation exit 1 (unknown error) instead of 201, or of the command's own status with --exit-code",
+			src: gvcCLIHeader + `
+func TestGvcReplay(t *testing.T) {
+	dir := t.TempDir()
+	tf := "version: '3'\nsilent: true\ntasks:\n  a:\n    deps: [b]\n    cmds: ['echo a']\n  b:\n    cmds: ['exit 7']\n"
+	if err := os.WriteFile(filepath.Join(dir, "Taskfile.yml"), []byte(tf), 0o644); err != nil {
+		t.Fatal(err)
+	}
+	gvcCLI(t, dir, "a")
+	plain := gvcExitCode
+	gvcCLI(t, dir, "--exit-code", "a")
+	withX := gvcExitCode
+	if plain != 201 || withX != 7 {
+		t.Fatalf("GVC-REPLAY-REPRODUCED: task a (whose dependency runs 'exit 7') exits %d, and %d with --exit-code; want 201 and 7", plain, withX)
+	}
+}
+`}},
 		clauseScenario{"task.run", "posArgs[0]", scenario{pkgRel: "", what: "task --init <path> ignores the path argument",
 			src: gvcCLIHeader + `
 func TestGvcReplay(t *testing.T) {
